@@ -2,7 +2,11 @@
 
 package s3db
 
-import "time"
+import (
+	"time"
+
+	"google.golang.org/protobuf/proto"
+)
 
 // VerifNow lets a harness substitute a logical clock for time.Now() (build
 // tag "verif"). It is inert until a harness installs a callback.
@@ -21,4 +25,17 @@ func VerifNowOr(t time.Time) time.Time {
 		return n
 	}
 	return t
+}
+
+// VerifDeterministicMarshal makes node encoding reproducible: protobuf-go
+// otherwise emits map fields (Row.ColumnValues) in random order, so equal
+// nodes get different content-addressed names from run to run.
+var VerifDeterministicMarshal bool
+
+func verifMarshal(m proto.Message) ([]byte, error, bool) {
+	if !VerifDeterministicMarshal {
+		return nil, nil, false
+	}
+	b, err := proto.MarshalOptions{Deterministic: true}.Marshal(m)
+	return b, err, true
 }
